@@ -300,14 +300,23 @@ func (s *server) ModifyColumnFamilies(ctx context.Context, req *btapb.ModifyColu
 			}
 			delete(cfs, mod.Id)
 
-			// Purge all data for this column family
+			// Purge all data for this column family. Rows that are left without any
+			// cell are removed (after the iteration, which must not see deletions).
+			var emptied []keyType
 			tbl.rows.Ascend(func(r *btpb.Row) bool {
 				r, changed := scrubRow(r, tbl.cols())
 				if changed {
-					tbl.rows.ReplaceOrInsert(r)
+					if len(r.Families) == 0 {
+						emptied = append(emptied, r.Key)
+					} else {
+						tbl.rows.ReplaceOrInsert(r)
+					}
 				}
 				return true
 			})
+			for _, key := range emptied {
+				tbl.rows.Delete(key)
+			}
 		} else if modify := mod.GetUpdate(); modify != nil {
 			cf, ok := cfs[mod.Id]
 			if !ok {
